@@ -1498,6 +1498,15 @@ impl<'a, Octs: Octets + ?Sized> MessageTsig<'a, Octs> {
             // If it's None, then it's some other record type, and we just
             // continue.
             if let Some(record) = record {
+                // RFC 8945, section 4.2: the class of a TSIG record must be
+                // ANY and its TTL must be 0. Both are part of what is being
+                // signed, so anything else cannot be let through.
+                if record.class() != Class::ANY
+                    || record.ttl().as_secs() != 0
+                {
+                    return Err(TsigError::Invalid);
+                }
+
                 // We got a valid TSIG, now assert that it's the last record:
                 if section.next().is_some() {
                     return Err(TsigError::Position);
